@@ -10,15 +10,26 @@ PROP = "C07"
 
 def impl_fn(m, fn_id, deps_form, bounds, vis):
     lt = (m.self_lt + " ") if m.self_lt else ""
+    where = ""
     if deps_form == "generic":
         g = m.generics_text(extra_first=["D" + ((": " + " + ".join(bounds)) if bounds else "")])
+        dty = "&%sD" % lt
+    elif deps_form == "split":
+        # the bounds of the named dependency parameter are split between the parameter list and the where clause
+        g = m.generics_text(extra_first=["D: " + bounds[0]])
+        where = " where D: " + " + ".join(bounds[1:])
+        dty = "&%sD" % lt
+    elif deps_form == "where2":
+        # ... or between several where predicates
+        g = m.generics_text(extra_first=["D"])
+        where = " where " + ", ".join("D: " + b for b in bounds)
         dty = "&%sD" % lt
     else:
         g = m.generics_text()
         b = " + ".join(bounds) if bounds else "::core::marker::Sized"
         dty = "&%s(impl %s)" % (lt, b) if len(bounds) > 1 else "&%simpl %s" % (lt, b)
     ps = ["deps: " + dty] + [p.decl() for p in m.params]
-    sig = "%s%sfn %s%s(%s)%s" % (vis, "async " if m.is_async else "", m.name, g, ", ".join(ps), m.ret_text())
+    sig = "%s%sfn %s%s(%s)%s%s" % (vis, "async " if m.is_async else "", m.name, g, ", ".join(ps), m.ret_text(), where)
     return sig + " " + m.body(fn_id, "deps", name_expr='"name_from_%s"' % fn_id.split("::")[-2])
 
 
@@ -55,7 +66,7 @@ def build_case(cid, rng, dynamic, force_async=False, no_send=False, probes=False
     # helper leaf deps the impl fns may require of Impl<App>
     helpers = []
     L = tg.support_for(t.methods)
-    same_named = rng.random() < 0.3
+    same_named = rng.random() < 0.45
     leaf_impls = []
     for i in range(rng.randint(0, 2) if not same_named else 2):
         fid = "%s::h%d" % (cid, i)
@@ -97,6 +108,8 @@ def build_case(cid, rng, dynamic, force_async=False, no_send=False, probes=False
             hs = rng.sample(helpers, k)
             bounds = [h[0] for h in hs]
             form = "generic" if (not bounds and rng.random() < 0.5) or rng.random() < 0.3 else "impl"
+            if len(bounds) >= 2 and rng.random() < 0.5:
+                form = rng.choice(["split", "where2"])
             import copy
             mm = copy.deepcopy(m)
             mm.nested = [(h[1], h[2], "%di32" % rng.randint(1, 9), False) for h in hs if rng.random() < 0.8]
